@@ -243,8 +243,9 @@ AllocNode(C, r, n, a, derived) ==
      LET r1 == [r EXCEPT !.st = TransferSt(C, r.st, n, a)]
      IN  FoldKids(C, r1, C.kids[n], 1, a, 0)
 \* an explicit trade of q units of x (transact): the log must show exactly it
+\* a zero or NaN quantity is "nothing to do" (core.py: `if is_zero(q) or np.isnan(q): return`)
 ExplicitTrade(C, r, x, q, cp) ==
-  IF IsZero(q) THEN r ELSE
+  IF IsZero(q) \/ IsNaN(q) THEN r ELSE
   LET ok == r.auto \/ (HeadIs(r, x) /\ HeadQ(r, x) = q)
       r1 == IF ~r.auto /\ HeadIs(r, x) THEN Pop(r, x) ELSE r
   IN  [r1 EXCEPT !.st  = TradeSec(C, r.st, x, q, cp),
